@@ -131,8 +131,13 @@ def check_block_signatures(nodes: typing.List[ValidatorDescr], signatures: typin
 
     to_sign = b'pn\x0b\xc5' + blk.root_hash + blk.file_hash  # bytes.fromhex('c50b6e70')[::-1] - magic
     i = 0
+    seen = set()
     for sig in signatures:
-        node = node_map.get(bytes.fromhex(sig['node_id_short']))
+        node_id_short = bytes.fromhex(sig['node_id_short'])
+        if node_id_short in seen:
+            raise ProofError('duplicate signature of one validator')
+        seen.add(node_id_short)
+        node = node_map.get(node_id_short)
         node: ValidatorDescr
         i += 1
 
@@ -146,7 +151,7 @@ def check_block_signatures(nodes: typing.List[ValidatorDescr], signatures: typin
 
         signed_weight += node.weight
 
-    if signed_weight * 3 >= total_weight * 2:  # >= 2/3
+    if signed_weight * 3 > total_weight * 2:  # more than 2/3
         return
 
     raise ProofError(f'Block {blk} has not been signed by 2/3 of validators')
